@@ -120,6 +120,11 @@ def tok_records(rnd, tier):
             if c % 4 == 3:          # observed through snapshots of one solve, on a domain of any extent (steps of 1e-13 .. 1e7)
                 L_ = rnd.choice([1.0, 1e-11, 3e-12, 1e9])
             m = fd.uniform(n, length=L_, x0=rnd.choice([0.0, 0.0, -0.5 * L_ / n, -1.5 * L_ / n, -L_ / 2, 0.3, -7.3]))
+            vol_ = np.asarray(m.vol(), dtype=float)
+            if float(np.max(vol_) - np.min(vol_)) > 1e-9 * float(np.mean(vol_)):
+                # an origin whose own rounding unit is not negligible against the cell size (0.3 + k * 5e-13) does not give a
+                # UNIFORM mesh in floating point (cell sizes differ by 1e-4 .. 1e-2 relative): the property is about uniform meshes
+                m = fd.uniform(n, length=L_, x0=-0.5 * L_ / n)
             cfl = rnd.choice([0.5, 0.45, 0.3, 0.05])
         kind = rnd.choice(["rand", "step", "saw", "sign", "ints"])
         if kind == "rand":
